@@ -7,14 +7,42 @@ GLOBAL_NOTE = ("Trusted: govc (the VC generator), go/ssa, the SMT solvers; assum
   "integers are mathematical (no wrap-around), time.Time is an unbounded ns count, float64 is the reals; logging/metrics calls are effect-free; no goroutine interleavings (listers return arbitrary lists).")
 
 claimed = {
+ "C01": dict(text="Proof on the real scan code: every cloud removal request (C_DELNODE) and Node deletion (K_DELETE) a scan of one group issues targets a node listed by the group's lister in that scan which is uncordoned and either carries the escalator taint with a readable (base-10, representable) taint time older than soft grace while its node-info entry holds only DaemonSet pods, or older than hard grace, or carries the force taint with such an empty entry (top clause post#[C01,C10] on scaleNodeGroup, carried by TryRemoveTaintedNodes / TryRemoveForceTaintedNodes / TryDeleteNodes / ScaleDown / filterNodes / GetToBeRemovedTime / NodeEmpty ...), plus the emptiness link to the listed pods. Holds from any state satisfying the group invariant, hence for every history and after any restart (nothing but the scan's snapshot, the clock and the options is read).", ref="§7 C01",
+   note="k8s.CreateNodeNameToInfoMap is used through an ASSUMED contract (completeness of the node-info map; not yet verified function by function). Node names are unique among listed nodes (assumption of the lister contract). Finding F9 (taint value beyond time.Unix range) found by pre@time.Unix and fixed (9a6add4). " ),
+ "C02": dict(text="Proof: scaleLock.locked() is true while (saturating) clock - lockTime < cool-down and false (and unlocked) once it has elapsed; ScaleUp arms the lock exactly when the cloud accepted an increase, after it, at the current clock; and a scan of a group whose lock is running issues no event of any kind (post#[C02] on scaleNodeGroup, for every clock value = every spacing of scans).", ref="§7 C02",
+   note="Finding F2 (below-minimum recovery ran before the lock check) found by this clause, witnessed on the real code and fixed (commit in known-findings.json). 'Within one controller lifetime' = the lock lives in memory; the group invariant links minimumLockDuration to the configured cool-down. "),
+ "C03": dict(text="Proof: the number of successful taint writes in a taint pass is at most max(0, untainted - min_nodes) and at most the rate (scaleDownTaint/ScaleDown/taintOldestN, counter nTaintOK maintained by the assumed Update contract); below the minimum nothing is tainted and an error is returned; ScaleUp never taints; RunOnce refreshes min/max from the cloud group each scan when auto-discovery is configured (post#[C03] with loop invariant).", ref="§7 C03",
+   note="The untainted list is the one filterNodes returns (exactly the uncordoned nodes with neither taint, outside dry mode); the call-site preconditions allU/allT force scaleNodeGroup to pass those lists. Counting 'untainted nodes it sees' as the length of that list. "),
+ "C04": dict(text="Proof: the only cloud request a scale-up makes is one IncreaseSize(d) with d >= 1 and target + d <= min(max_nodes, cloud max); a clamped request lands exactly on the bound; without headroom nothing is requested (scaleUpCloudProviderNodeGroup, ScaleUp, scaleNodeGroup post#[C04]); the AWS IncreaseSize rejects d <= 0 or target + d > ASG max with no AWS write.", ref="§7 C04",
+   note="Finding F1 (clamp ignored max_nodes) found, witnessed, fixed. Cloud target/max are what the provider's cached view reports (interface contract). "),
+ "C05": dict(text="Proof over the reals: calcPercentUsage and calcScaleUpDelta compute the stated formulas (incl. the scale-from-zero sentinel and the cached node size); lemmas C05_normal / C05_fromzero_a/b show n + d nodes bring both utilisations to at most the threshold and n + d - 1 do not; call-site assertions in scaleNodeGroup show the delta handed to ScaleUp is that d (or 1 when only an exception asked); the cached node size is the one observed in this scan. Bounded float64-vs-rational differential in the thorough tier.", ref="§7 C05", category="proof",
+   note="float64 is modelled as the reals (rounding at exact band edges is outside the proof; see bounded differential, thorough tier). resource.Quantity values via uninterpreted milli()/qval() without saturation. Composition 'untainted + requested' relies on C07's clauses. "),
+ "C06": dict(text="Proof (over the reals) by call-site assertions on the real scaleNodeGroup: a taint pass is entered only from the two lower bands with exactly that band's rate as the requested amount, the do-nothing branch only when no band asks for anything, a scale-up only with delta >= 1 which is 1 when only scale_on_starve / max_node_age asked; taint passes taint at most min(rate, untainted - min_nodes); the starve trigger is exactly the documented condition.", ref="§7 C06",
+   note="Thresholds/rates range over what validation accepts (precondition). 'Exactly min(rate, untainted-min)' is proved as an upper bound on successful writes; equality needs every API call to succeed (not claimed). float64 as reals. "),
+ "C07": dict(text="Proof: ScaleUp untaints first (at most N successes), issues at most one cloud request, as the last event, for exactly min(N - u, headroom) with u the count untaintNewestN reports, never while a tainted node was left unattempted (every tainted node's fresh copy was fetched when fewer than N succeeded); AWS IncreaseSize sets desired = cached target + d.", ref="§7 C07",
+   note="Newest-first ORDER of the untaint attempts is not yet a discharged clause (the sort contract and comparator are under contract; the ordering clause is pending). The cached target can be stale after a force removal in the same scan (F6, see DESIGN.md). "),
+ "C09": dict(text="Proof: filterNodes puts a cordoned node in the cordoned list only (whatever taints it carries) and the other lists hold exactly the uncordoned nodes by taint; every Node write / removal of a scan targets a listed node that is uncordoned (post#[C09] on scaleNodeGroup); capacity is computed from the untainted list.", ref="§7 C09", note="Outside dry mode, as the property states. "),
+ "C10": dict(text="Proof: safeFromDeletion is true iff the annotation is present with a non-empty value; the reaper skips such nodes before any grace logic, so no removal event targets an annotated node unless it is force-tainted (delOK in post#[C01,C10]); filterNodes / tainting / capacity never read the annotation (it does not occur in their contracts and their frames).", ref="§7 C10", note=""),
+ "C11": dict(text="Proof: with either dry-mode switch on, scaleNodeGroup and every emitter below it (taintOldestN, untaintNewestN, scaleUpCloudProviderNodeGroup, the reapers, TryDeleteNodes, ScaleUp, ScaleDown) leave the journal of writes unchanged.", ref="§7 C11", note="ASG tagging at provider registration (CreateOrUpdateTags) is outside a group's scan and outside the statement's enumeration. "),
+ "C12": dict(text="Proof: every node a scan touches was listed by that group's own node lister in that scan and every cloud request goes to the group's own cloud group (post#[C12] on scaleNodeGroup); scaleNodeGroup preserves the invariant of every other group's state and writes only its own state (frame); RunOnce processes every group once (scan counter) and returns early only on not-in-group, provider rebuild failure or a vanished cloud group.", ref="§7 C12",
+   note="The two-worlds comparison is reduced to footprints (reads/writes) + determinism of sequential Go (trusted meta-step). The wiring lister -> filter function (NewClient / NewNodeGroupLister / Filtered*Lister.List) is not yet under contract; the filter functions themselves are (C14). "),
+ "C14": dict(text="Proof for all pod/node shapes (any number of terms, expressions, values, owners): the three filter closures return true iff the documented condition holds (selector match or required In-expression listing the value, not DaemonSet; default group: not DaemonSet, not static, no selector, no affinity of any kind; node label equals value).", ref="§7 C14", note=""),
  "C15": dict(
-   text="Proof, for every node object, taint list (any length/order), effect and API failure: AddToBeRemovedTaint sends the fetched object only if it did not carry the escalator taint when fetched (never re-stamped), with the fetched taints in order plus exactly one new taint (key, defaulted effect, current Unix time); DeleteToBeRemovedTaint sends it only if it carried the taint and removes exactly the first such taint (swap with last), keeping every other one; both write nothing else of any Node object (syntactic frame over all v1/metav1 field arrays). 30 obligations on the two real functions.",
+   text="Proof, for every node object, taint list (any length/order), effect and API failure: AddToBeRemovedTaint sends the fetched object only if it did not carry the escalator taint when fetched (never re-stamped), with the fetched taints in order plus exactly one new taint (key, defaulted effect, current Unix time); DeleteToBeRemovedTaint sends it only if it carried the taint and removes exactly the first such taint (swap with last), keeping every other one; both write nothing else of any Node object (syntactic frame over all v1/metav1 field arrays).",
    ref="§7 C15",
-   note="Get returns a deep-fresh copy whose taints are recorded by the got* spec functions (assumed contract on NodeInterface.Get); Update never mutates the object sent; fmt.Sprint(int64) is injective decimal formatting (assumed); history part (later scale-downs cannot restart the grace period) follows because the check is made on the freshly fetched object on every call. " + GLOBAL_NOTE),
+   note="Get returns a deep-fresh copy whose taints are recorded by the got* spec functions (assumed contract on NodeInterface.Get); Update never mutates the object sent; fmt.Sprint(int64) is injective decimal formatting (assumed); history part (later scale-downs cannot restart the grace period) follows because the check is made on the freshly fetched object on every call. "),
  "C16": dict(
-   text="Proof (validator half), for every NodeGroupOptions value: if ValidateNodeGroup returns no problem then name/label/cloud group are non-empty, 0 < lower < upper < scale-up threshold, 0 <= slow <= fast, 0 < soft < hard, cool-down > 0, (0 <= min < max or min = max = 0), taint effect/lifecycle/max_node_age valid. Nine tagged postconditions on the real function, its checkThat closure and the duration getters under contract. The decoding half (same configuration as YAML or JSON decodes to the same options, every documented key honoured) is NOT decided: it is reflection over struct tags inside encoding/json and k8s yaml, which no contract on escalator code expresses.",
+   text="Proof (validator half), for every NodeGroupOptions value: if ValidateNodeGroup returns no problem then name/label/cloud group are non-empty, 0 < lower < upper < scale-up threshold, 0 <= slow <= fast, 0 < soft < hard, cool-down > 0, (0 <= min < max or min = max = 0), taint effect/lifecycle/max_node_age valid. The decoding half (same configuration as YAML or JSON decodes to the same options, every documented key honoured) is NOT decided: it is reflection over struct tags inside encoding/json and k8s yaml, which no contract on escalator code expresses.",
    ref="§7 C16, §9",
-   note="time.ParseDuration is modelled by uninterpreted parseDurOK/parseDurVal (assumed contract); k8s.TaintEffectTypes holds exactly the three effects (precondition, established by package init and never written); private duration caches are zero on a freshly decoded configuration (precondition). Finding F5 (negative slow rate accepted) was found by post#2 and fixed in /repo (commit e368c23). YAML/JSON decoding: not applicable to this technique, stated here rather than claimed. " + GLOBAL_NOTE),
+   note="time.ParseDuration is modelled by uninterpreted parseDurOK/parseDurVal (assumed contract); k8s.TaintEffectTypes holds exactly the three effects (precondition); private duration caches are zero on a freshly decoded configuration (precondition). Finding F5 (negative slow rate accepted) found by post#2 and fixed. YAML/JSON decoding: not applicable to this technique, stated here rather than claimed. "),
+ "C17": dict(text="Proof for the plain-ASG path: IncreaseSize(d) rejects d <= 0 or desired + d > ASG max with no AWS write, otherwise issues exactly one SetDesiredCapacity(asg, desired + d) (> desired). The launch-template (fleet) path below it (CreateFleet request shape, attach batches of <= 20) is NOT yet verified function by function: setASGDesiredSizeOneShot is used through an assumed contract.", ref="§7 C17", category="proof",
+   note="Partial: fleet half pending (listed as trusted base in the evidence). SDK call contracts assumed. "),
+ "C18": dict(text="Proof for the termination half and the lock half: terminateOrphanedInstances submits every instance given, in TerminateInstances calls of at most 1000 ids (pre@TerminateInstances), for every fleet size; ScaleUp leaves the cool-down lock untouched whenever the provider reports a failure. The attach/readiness half (every acquired instance ends up attached xor terminated) is NOT yet discharged.", ref="§7 C18", category="proof",
+   note="Partial. Finding F3 (id slice accumulated across batches: 1000, 2000, ...) found by pre@TerminateInstances, witnessed and fixed. log.Fatalf after three consecutive clean-ups is a point of no return. "),
+ "C19": dict(text="Proof: aws DeleteNodes refuses the whole request (no AWS write) when desired <= min or desired - len(nodes) < min; otherwise terminates, always with decrement, the first ASG instance whose provider ID equals each node's, in order, never more than desired - min, stopping with a *NodeNotInNodeGroup error at the first non-member or at the first failing call; TryDeleteNodes deletes Node objects only after every cloud request of the batch was accepted; a not-in-group error from the provider is returned by the reapers, ScaleDown, scaleNodeGroup and RunOnce.", ref="§7 C19",
+   note="instanceToProviderID (fmt.Sprintf) is an assumed injective formatting; ASG instance records carry AZ and id (SDK assumption). Finding F10 (force path only logged the error) found, witnessed, fixed. "),
+ "C20": dict(text="Proof of panic-freedom and loop termination, function by function, for the 66 functions under contract (safe/nil, safe/index, safe/slice, safe/makelen, safe/mapnil, safe/div, safe/assert, explicit panics, decreases for counted loops) for all object shapes and all API failures (every external call may fail with unconstrained outputs); RunOnce re-establishes the controller invariant whenever it returns nil, so the next scan starts from a valid state; errors other than not-in-group are contained per group.", ref="§7 C20",
+   note="Known finding F7: RunOnce also stops the controller when the provider cannot be rebuilt or a cloud group vanished (recorded, not repaired). providerIDToInstanceID / GetInstance / Refresh / RegisterNodeGroups and the fleet path are not yet under contract (F4 pending). Well-formedness of successful SDK outputs is assumed where dereferenced (listed per contract). Timers fire / Sleep returns: assumed. "),
 }
 
 pending_reason = "not claimed in this build: the contracts for the functions this property depends on are not yet all discharged (work in progress; see DESIGN.md §7 for the plan)"
@@ -48,7 +76,7 @@ for p in props:
           "replay_cmd_template": "./bin/govc replay -file {path}",
           "engine": "govc",
           "level_claimed": {"category": c.get("category","proof"), "text": c["text"], "design_ref": c["ref"]},
-          "level_note": c["note"],
+          "level_note": c["note"] + GLOBAL_NOTE,
           "technique": TECH,
         })
     else:
